@@ -354,6 +354,42 @@ def r23(orig, rule):
     return 'for __i in __it: %s..=%s { %s.push(__i); }' % (a, b, x)
 
 
+def r18m(orig, rule):
+    # assert_eq!(A, B, "fmt", args...);  ->  assert!(A == B);   (same panic condition; the message is dropped)
+    s = norm(orig)
+    m = _m(r'assert_eq ! \( ([^,]+?) , ([^,]+?) , (" .*) \) ;', s) if False else None
+    toks = texts(lex(orig)[0])
+    if toks[:3] != ['assert_eq', '!', '('] or toks[-2:] != [')', ';']:
+        raise NoMatch('not an assert_eq!(..);')
+    # split top-level arguments
+    args, depth, cur = [], 0, []
+    for t in toks[3:-2]:
+        if t in '([{':
+            depth += 1
+        elif t in ')]}':
+            depth -= 1
+        if t == ',' and depth == 0:
+            args.append(' '.join(cur)); cur = []
+        else:
+            cur.append(t)
+    if cur:
+        args.append(' '.join(cur))
+    if len(args) < 3 or not args[2].startswith('"'):
+        raise NoMatch('no message argument')
+    return 'assert!(%s == %s);' % (args[0], args[1])
+
+
+def r24(orig, rule):
+    # for (A, B) in X.iter().zip(Y) {   (X, Y byte slices)
+    #   -> let __n = if X.len() <= Y.len() { X.len() } else { Y.len() }; for __i in 0..__n { let A = &X[__i]; let B = &Y[__i];
+    #   (zip stops at the shorter side; items are references)
+    s = norm(orig)
+    m = _m(r'for \( (%s) , (%s) \) in (%s) \. iter \( \) \. zip \( (%s) \) \{' % (ID, ID, ID, ID), s)
+    a, b, x, y = m.groups()
+    return ('let __n = if %s.len() <= %s.len() { %s.len() } else { %s.len() }; for __i in 0..__n { let %s = &%s[__i]; let %s = &%s[__i];'
+            % (x, y, x, y, a, x, b, y))
+
+
 def r1b(orig, rule):
     # for (I, X) in E.iter().enumerate() {   ->  for I in 0..E.len() { let X = &E[I];      (X bound to a reference, as the iterator yields)
     s = norm(orig)
@@ -371,7 +407,7 @@ def r1t(orig, rule):
 
 
 GENERATORS = {
-    'R1b': r1b, 'R1t': r1t, 'R22': r22, 'R23': r23,
+    'R1b': r1b, 'R1t': r1t, 'R22': r22, 'R23': r23, 'R24': r24, 'R18m': r18m,
     'RBW': rbw,
     'R4m': r4m,
     'R12m': r12m,
